@@ -44,6 +44,9 @@ CHECKS = {
  "C05": ("model_checking", "bounded exhaustive enumeration of connection/command histories against a real server.Server with a monitor in every handler and ground truth taken from the wire",
          "E-BFS", "All histories up to depth 3 (quick, reduced alphabet) / 4 (thorough) over open(client kind, first command) / kept-alive follow-on / explicit resume with another command / authorizer switch / raw send, on a server whose commands carry different per-command policies and authorization levels. Every handler invocation is judged: registered, reached through the right path, authentication really ran on the wire when required, stream really encrypted (and canaries invisible) when required, identity authorized under the current table; refused or unknown commands close the connection with no handler run.",
          "Client kinds: TOKEN alice/bob, unauthenticated, plaintext, scripted key-skipping CLAIMTOBE client; 16 worker processes isolate the process-global server cache.", "DESIGN.md §3 C05"),
+ "C11": ("fault_enumeration", "exhaustive single-fault enumeration over the token string and over every byte of the three AKEP2 messages between a real client and server, judged by an independent HKDF+HMAC token verifier",
+         "E-FAULT", "20 token variants (other key, unknown/traversal/empty key id, missing/non-string/empty sub, expiry and issue times 120 s either side of the limits) and every single-bit flip of a valid token go through a real TOKEN handshake and through VerifyIDToken; every byte of each AKEP2 message is altered in transit (two substitutes), truncated at every 8th byte, extended, and the claimed client identity is replaced field-aware. Server success requires a valid token and unaltered client proofs, client success an unaltered server proof, and the recorded user is always the token subject.",
+         "Framing-only alterations (end flag, bytes after the message) are recorded, not judged; the server-side path for a validly signed token without 'sub' is not reached because the real client refuses to send one.", "DESIGN.md §3 C11"),
 }
 PENDING = "check not built yet in this session (planned, DESIGN.md section 3); listed here until its check is registered"
 def main():
